@@ -134,6 +134,19 @@ impl CallerInformation {
         }
     }
 
+    /// Whether the callees checked on behalf of this caller must be verified
+    /// even when their edge is not marked dirty.
+    pub const fn pedantic_repair(&self) -> bool {
+        match &self.kind {
+            CallerKind::Query(q) => q.pedantic_repair(),
+            CallerKind::BackwardProjectionPropagation => true,
+
+            CallerKind::RepairFirewall
+            | CallerKind::Tracing
+            | CallerKind::User => false,
+        }
+    }
+
     pub const fn timestamp(&self) -> Timestamp { self.timestamp }
 
     pub const fn kind(&self) -> &CallerKind { &self.kind }
